@@ -143,7 +143,16 @@ PENDING = {  # still genuine on the current tree (known_findings.d/batch4.json);
     "nanquantile:nonfinite:values": "nanquantile fast path (last axis, linear) gives +-inf where NumPy computes inf-inf = NaN (no fix)",
     "arg-reduction:axis=int&nan&lane-extreme-is-inf:raises@array/reductions.py:nanarg_agg":
         "nanargmin/nanargmax raise 'All NaN slice' for a lane whose only valid values are inf when a chunk of it is all-NaN (no fix)",
+    # parameter audit (known_findings.d/C22.json)
+    "quantile:q.ndim>a.ndim:raises@array/core.py:map_blocks":
+        "quantile of a 1-d array with a 2-d q raises while the graph is built (q is block-aligned with the array by map_blocks)",
 }
+# Fix patches of the parameter audit (fixes_ready/C22_01 .. C22_05); until they are applied to /repo these labels fire there:
+#   std:out=given:result-is-not-out                       std/nanstd hand out= to var: out holds the variance (C22_01)
+#   moment:order<2&out=given:result-is-not-out            moment(order 0|1) ignores out= (C22_02)
+#   moment:unknown-chunks&order<2[&keepdims]:shape|lazy-shape|values   moment(order 0|1) of an array with unknown chunk sizes (C22_03)
+#   nanquantile:weights=full:values                       _custom_nanquantile drops weights of the shape of the block (C22_04)
+#   quantile|nanquantile:weights=full&nonreduced-axis-split:raises@...  weights of the array's shape are not cut into blocks (C22_05)
 
 # Fraction of random cases whose chunking gets one zero-size chunk inside a non-empty axis.  OFF (0.0): the brief
 # keeps zero-length inputs out of C22 and C25 already reports the zero-size-chunk defects of scans / var / min / max.
@@ -236,6 +245,10 @@ def _rand_shape(rng, fam):
     return shape
 
 
+_UNSET = object()
+_AUDIT = True
+
+
 def cases(tier, seed):
     rng = random.Random(seed * 7907 + 22)
     # ---- complete sub-space ---------------------------------------------------------------
@@ -267,98 +280,522 @@ def cases(tier, seed):
     ops = RED + ARG + ARG + CUM + CUM + TOPK + TOPK + MED + QUANT + NANLANE_OPS
     n = 3600 if tier == "quick" else 110000
     for _ in range(n):
-        op = rng.choice(ops)
-        fam = family(op)
-        shape = _rand_shape(rng, fam)
-        nanlanes = op in NANLANE_OPS and rng.random() < 0.45
-        if nanlanes and len(shape) < 2:
+        yield _rand_case(rng, ops)
+    # ---- parameter audit families (own random stream; the stream above is unchanged) -----------
+    if _AUDIT: yield from _audit_cases(tier, seed)
+
+
+def _rand_case(rng, ops, op=None, shape=None, chunks=None, dtype=None, flavour=None, axis=_UNSET):
+    """One random case.  With only (rng, ops) this is the original random stream; the audit families force the
+    operation / shape / chunking / dtype / data flavour / axis and leave the rest to the same rules."""
+    op = op or rng.choice(ops)
+    fam = family(op)
+    forced_shape = shape is not None
+    shape = list(shape) if forced_shape else _rand_shape(rng, fam)
+    nanlanes = op in NANLANE_OPS and rng.random() < 0.45
+    if nanlanes and len(shape) < 2:
+        if forced_shape:
+            nanlanes = False
+        else:
             shape = [rng.randint(2, 6), rng.randint(2, 6)] + ([rng.randint(1, 3)] if rng.random() < 0.3 else [])
             rng.shuffle(shape)
-        nd = len(shape)
-        size = 1
-        for s in shape:
-            size *= s
-        if op in ("min", "max", "argmin", "argmax"):
-            dtype = rng.choice(A.DTYPES)
-        elif fam in ("topk", "med", "quant"):
-            dtype = rng.choice(A.REAL + ["float64", "bool"] if fam == "topk" else A.REAL + ["float64"])
-        elif op == "moment":
-            dtype = rng.choice(A.REAL + ["float64"])
+    if flavour is not None and flavour != "nanlanes":
+        nanlanes = False
+    nd = len(shape)
+    size = 1
+    for s in shape:
+        size *= s
+    forced_dtype = dtype
+    if op in ("min", "max", "argmin", "argmax"):
+        dtype = rng.choice(A.DTYPES)
+    elif fam in ("topk", "med", "quant"):
+        dtype = rng.choice(A.REAL + ["float64", "bool"] if fam == "topk" else A.REAL + ["float64"])
+    elif op == "moment":
+        dtype = rng.choice(A.REAL + ["float64"])
+    else:
+        dtype = rng.choice(NUM)
+    if nanlanes:
+        dtype = rng.choice(("float64", "float64", "float32"))
+    if forced_dtype is not None:
+        dtype = forced_dtype
+        if nanlanes and not dtype.startswith("float"):
+            nanlanes = False
+    isfloat = dtype.startswith(("float", "complex"))
+    if nanlanes:
+        flav = "nanlanes"
+    elif fam == "topk":
+        flav = rng.choice(("clean", "ties", "inf", "normal") if isfloat else ("clean", "ties"))
+    elif fam == "arg":
+        flav = rng.choice(("small", "ties", "ties", "nan", "clean", "inf"))
+    else:
+        flav = rng.choice(("small", "small", "clean", "nan", "inf", "normal", "ties"))
+    if flavour is not None and not (flavour == "nanlanes" and not nanlanes):
+        flav = flavour
+    flavour = flav
+    d = {"op": op, "shape": shape, "dtype": dtype, "seed": rng.randrange(2 ** 31), "flavour": flavour,
+         "chunks": [list(c) for c in (chunks if chunks is not None else A.rand_chunks(rng, shape))]}
+    if ZERO_SIZE_CHUNK_FRACTION and shape and rng.random() < ZERO_SIZE_CHUNK_FRACTION:
+        # a zero-size chunk inside a non-empty axis (facet switched off by default, see module docstring)
+        cs = d["chunks"][rng.randrange(nd)]
+        cs.insert(rng.randint(0, len(cs)), 0)
+    rand_axis = _rand_axis(rng, nd, fam)
+    if nanlanes and rand_axis is None and fam != "cum" and rng.random() < 0.8:
+        rand_axis = rng.randrange(-nd, nd)      # the lane structure matters along an int / tuple axis
+    axis = rand_axis if axis is _UNSET else axis
+    d["axis"] = axis
+    red_axes = _norm_axes(axis, nd)
+    if fam in ("red", "arg", "topk"):
+        first = _rand_split_every(rng, red_axes)
+        ses = [first]
+        if rng.random() < 0.6:
+            second = _rand_split_every(rng, red_axes)
+            if second != first:
+                ses.append(second)
+        d["ses"] = ses
+    if fam in ("red", "arg", "med", "quant"):
+        d["keepdims"] = rng.random() < 0.4
+    if op in ("var", "std", "nanvar", "nanstd", "moment"):
+        d["ddof"] = rng.choice((0, 0, 1, 1, 2))
+        if not op.startswith("nan"):
+            nred = 1
+            for a in red_axes:
+                nred *= shape[a]
+            d["ddof"] = min(d["ddof"], nred)   # ddof > n: np.var divides by max(n - ddof, 0), see Calibration
+    if op == "moment":
+        d["order"] = rng.choice((0, 1, 1, 2, 3, 4))
+    if (fam == "cum" or op in ("sum", "prod", "mean", "var", "std", "nansum", "nanprod", "nanmean", "nanvar", "nanstd")) \
+            and rng.random() < 0.3:
+        pool = ["float32", "float64", "complex128"]
+        if fam == "cum" or op in ("sum", "prod", "nansum", "nanprod"):
+            pool.append("int64")
+        pool = [p for p in pool if np.can_cast(np.dtype(dtype), np.dtype(p), "same_kind")]
+        if pool:
+            d["dtype_arg"] = rng.choice(pool)
+    if op in PRODLIKE:
+        # order-dependent overflow is outside "tolerance implied by summation order" (see Calibration)
+        if size > 48 and (dtype == "float32" or d.get("dtype_arg") == "float32"):
+            if dtype == "float32":
+                d["dtype"] = "float64"
+            d.pop("dtype_arg", None)
+    if fam == "cum":
+        d["method"] = rng.choice(("sequential", "blelloch"))
+    if fam == "topk":
+        n_ax = shape[axis % nd]
+        k = rng.randint(1, n_ax)
+        if rng.random() < 0.25:
+            k = n_ax
+        d["k"] = k if rng.random() < 0.5 else -k
+    if fam == "quant":
+        if rng.random() < 0.4:
+            d["q"] = rng.choice((0.0, 0.25, 0.5, 0.3, 1.0))
         else:
-            dtype = rng.choice(NUM)
-        if nanlanes:
-            dtype = rng.choice(("float64", "float64", "float32"))
-        isfloat = dtype.startswith(("float", "complex"))
-        if nanlanes:
-            flavour = "nanlanes"
-        elif fam == "topk":
-            flavour = rng.choice(("clean", "ties", "inf", "normal") if isfloat else ("clean", "ties"))
-        elif fam == "arg":
-            flavour = rng.choice(("small", "ties", "ties", "nan", "clean", "inf"))
+            d["q"] = [rng.choice((0.0, 0.1, 0.25, 0.5, 0.7, 1.0)) for _ in range(rng.randint(1, 3))]
+        d["qmethod"] = rng.choice(QMETHODS + ["linear"] * 3)
+        if axis is None:
+            # dask documents NotImplementedError for a chunked full quantile
+            d["chunks"] = [[s] for s in shape]
+    return d
+
+
+# --------------------------------------------------------------------------- parameter audit families
+METHOD_FORM = {"sum", "prod", "mean", "std", "var", "moment", "min", "max", "any", "all", "argmin", "argmax",
+               "cumsum", "cumprod", "topk", "argtopk"}          # operations that are also Array methods
+ALL_QMETHODS = ["inverted_cdf", "averaged_inverted_cdf", "closest_observation", "interpolated_inverted_cdf", "hazen",
+                "weibull", "linear", "median_unbiased", "normal_unbiased", "lower", "higher", "midpoint", "nearest"]
+XDTYPES = ["complex64", "int16", "uint32", "uint64", "float16"]
+AUDIT_N = {  # cases per family (quick); thorough = quick x AUDIT_THOROUGH_FACTOR
+    "scanblocks_random": 40, "deeptree": 280, "params": 760, "xdtype": 220, "nd4": 130, "bigchunk": 110, "masked": 320}
+AUDIT_THOROUGH_FACTOR = 20
+
+
+def _comp_parts(rng, n, parts):
+    """random composition of n into exactly `parts` positive parts"""
+    parts = max(1, min(parts, n))
+    cuts = sorted(rng.sample(range(1, n), parts - 1)) if parts > 1 else []
+    b = [0] + cuts + [n]
+    return [y - x for x, y in zip(b, b[1:])]
+
+
+def _blocks_axis(rng, nb, slack=(0, 0, 0, 1, 2, 5)):
+    """(length, chunks) of an axis cut into exactly nb blocks, mostly of size 1-2, irregular"""
+    n = nb + rng.choice(slack) + (rng.randint(0, nb) if rng.random() < 0.3 else 0)
+    return n, _comp_parts(rng, n, nb)
+
+
+def _decorate(rng, d, p):
+    """non-default values of parameters that the original stream leaves at their default (or at few values)"""
+    op = d["op"]
+    fam = family(op)
+    shape = d["shape"]
+    nd = len(shape)
+    unknown = d.get("mask", {}).get("mode") == "unknown"
+    if fam != "topk" and not unknown and rng.random() < p:
+        d["out"] = rng.choice(("array", "array", "tuple"))
+    if op in METHOD_FORM and rng.random() < 0.6 * p:
+        d["form"] = "method"
+    if "ddof" in d and rng.random() < 0.6 * p:
+        nred = 1
+        for a in _norm_axes(_axis(d["axis"]), nd):
+            nred *= shape[a]
+        cand = [v for v in (0.5, 1.5) if op.startswith("nan") or v <= nred]
+        if cand:
+            d["ddof"] = rng.choice(cand)
+    if op == "moment" and rng.random() < 0.6 * p:
+        pool = [t for t in ("float32", "float64") if np.can_cast(np.dtype(d["dtype"]), np.dtype(t), "same_kind")]
+        if pool:
+            d["dtype_arg"] = rng.choice(pool)
+        if rng.random() < 0.3:
+            d["order"] = 5
+    if "ses" in d and rng.random() < p:
+        red_axes = _norm_axes(_axis(d["axis"]), nd)
+        u = rng.random()
+        if u < 0.35:
+            v = rng.choice((4, 5, 8, 16))
+        elif u < 0.7 or not red_axes:
+            v = {"config": rng.choice((2, 3, 5))}       # the documented global default (dask.config "split_every")
         else:
-            flavour = rng.choice(("small", "small", "clean", "nan", "inf", "normal", "ties"))
-        d = {"op": op, "shape": shape, "dtype": dtype, "seed": rng.randrange(2 ** 31), "flavour": flavour,
-             "chunks": [list(c) for c in A.rand_chunks(rng, shape)]}
-        if ZERO_SIZE_CHUNK_FRACTION and shape and rng.random() < ZERO_SIZE_CHUNK_FRACTION:
-            # a zero-size chunk inside a non-empty axis (facet switched off by default, see module docstring)
-            cs = d["chunks"][rng.randrange(nd)]
-            cs.insert(rng.randint(0, len(cs)), 0)
-        axis = _rand_axis(rng, nd, fam)
-        if nanlanes and axis is None and fam != "cum" and rng.random() < 0.8:
-            axis = rng.randrange(-nd, nd)      # the lane structure matters along an int / tuple axis
-        d["axis"] = axis
-        red_axes = _norm_axes(axis, nd)
-        if fam in ("red", "arg", "topk"):
-            first = _rand_split_every(rng, red_axes)
-            ses = [first]
-            if rng.random() < 0.6:
-                second = _rand_split_every(rng, red_axes)
-                if second != first:
-                    ses.append(second)
-            d["ses"] = ses
-        if fam in ("red", "arg", "med", "quant"):
-            d["keepdims"] = rng.random() < 0.4
-        if op in ("var", "std", "nanvar", "nanstd", "moment"):
-            d["ddof"] = rng.choice((0, 0, 1, 1, 2))
-            if not op.startswith("nan"):
-                nred = 1
-                for a in red_axes:
-                    nred *= shape[a]
-                d["ddof"] = min(d["ddof"], nred)   # ddof > n: np.var divides by max(n - ddof, 0), see Calibration
-        if op == "moment":
-            d["order"] = rng.choice((0, 1, 1, 2, 3, 4))
-        if (fam == "cum" or op in ("sum", "prod", "mean", "var", "std", "nansum", "nanprod", "nanmean", "nanvar", "nanstd")) \
-                and rng.random() < 0.3:
-            pool = ["float32", "float64", "complex128"]
-            if fam == "cum" or op in ("sum", "prod", "nansum", "nanprod"):
-                pool.append("int64")
-            pool = [p for p in pool if np.can_cast(np.dtype(dtype), np.dtype(p), "same_kind")]
-            if pool:
-                d["dtype_arg"] = rng.choice(pool)
-        if op in PRODLIKE:
-            # order-dependent overflow is outside "tolerance implied by summation order" (see Calibration)
-            if size > 48 and (dtype == "float32" or d.get("dtype_arg") == "float32"):
-                if dtype == "float32":
-                    d["dtype"] = "float64"
-                d.pop("dtype_arg", None)
-        if fam == "cum":
-            d["method"] = rng.choice(("sequential", "blelloch"))
-        if fam == "topk":
-            n_ax = shape[axis % nd]
-            k = rng.randint(1, n_ax)
-            if rng.random() < 0.25:
-                k = n_ax
-            d["k"] = k if rng.random() < 0.5 else -k
-        if fam == "quant":
-            if rng.random() < 0.4:
-                d["q"] = rng.choice((0.0, 0.25, 0.5, 0.3, 1.0))
+            keys = rng.sample(list(red_axes), rng.randint(1, len(red_axes)))
+            v = [[int(k), rng.choice((2, 4, 5))] for k in sorted(keys)]
+        i = rng.randrange(len(d["ses"]))
+        if v not in d["ses"]:
+            d["ses"][i] = v
+    if fam == "quant":
+        isf = d["dtype"].startswith("float")
+        if rng.random() < p:
+            d["qmethod"] = rng.choice(ALL_QMETHODS)
+        u = rng.random()
+        if u < 0.2 * p and isf:
+            d["q"] = rng.choice((0, 1))                    # python int (weakly typed scalar)
+        elif u < 0.5 * p and op == "quantile":
+            # (np.nanquantile lays the axes of an n-d q out differently for int and tuple axes: no reference, see Calibration)
+            ncol = rng.randint(1, 3)
+            d["q"] = [[rng.choice((0.0, 0.1, 0.25, 0.5, 0.7, 1.0)) for _ in range(ncol)] for _ in range(2)]   # 2-d q
+        if rng.random() < 0.6 * p:
+            axis = d["axis"]
+            kinds = ["full"]
+            if isinstance(axis, int) or (axis is None and nd == 1):
+                kinds += ["1d", "1d"]
+            d["w"] = {"kind": rng.choice(kinds), "seed": rng.randrange(2 ** 31), "dask": rng.random() < 0.3}
+            d["qmethod"] = "inverted_cdf"                  # the only method NumPy supports with weights
+    return d
+
+
+def _mask_case(rng, d, mode):
+    """The case's array is obtained from a larger one through a 1-d boolean dask mask along one axis: the kept rows are
+    the case's data (shape, chunking as described), dropped rows are inserted inside the chunks.  mode 'unknown': the
+    reduction runs on the array with unknown (nan) chunk sizes; 'sized': after compute_chunk_sizes()."""
+    nd = len(d["shape"])
+    m = rng.randrange(nd)
+    keep, full = [], []
+    while not keep or all(keep):
+        keep, full = [], []
+        for c in d["chunks"][m]:
+            row = [1] * c + [0] * rng.choice((0, 0, 1, 1, 2))
+            rng.shuffle(row)
+            keep += row
+            full.append(len(row))
+    d["mask"] = {"axis": m, "keep": keep, "chunks": full, "mode": mode}
+    return d
+
+
+def _audit_cases(tier, seed):
+    rng = random.Random(seed * 104729 + 2201)
+    mult = 1 if tier == "quick" else AUDIT_THOROUGH_FACTOR
+    main_ops = RED + ARG + ARG + CUM + CUM + TOPK + TOPK + MED + QUANT + NANLANE_OPS
+
+    def tag(d, name):
+        d["fam"] = name
+        if d["op"] in PRODLIKE and int(np.prod(d["shape"] or [1])) > 216:
+            # order-dependent overflow of long floating products is outside the statement (see Calibration)
+            if d["dtype"].startswith(("float", "complex")):
+                d["dtype"] = "int64"
+                if d["flavour"] == "nanlanes":
+                    d["flavour"] = "clean"
+            d.pop("dtype_arg", None)
+        return d
+
+    # ---- scans over 7..33 blocks (every count, both methods): the Blelloch up/down-sweep has one shape per count --------
+    for rep in range(mult):
+        for nb in range(7, 34):
+            for method in ("blelloch", "blelloch", "sequential"):
+                op = rng.choice(CUM)
+                n, comp = _blocks_axis(rng, nb)
+                if rng.random() < 0.5:
+                    shape, chunks, axis = [n], [comp], rng.choice((0, -1) if method == "blelloch" else (0, -1, None))
+                else:
+                    other = rng.randint(1, 3)
+                    axis = rng.randrange(2)
+                    shape = [other, other]
+                    shape[axis] = n
+                    chunks = [A.rand_comp(rng, other), A.rand_comp(rng, other)]
+                    chunks[axis] = comp
+                    if rng.random() < 0.3:
+                        axis -= 2
+                d = _rand_case(rng, None, op=op, shape=shape, chunks=chunks, axis=axis,
+                               dtype=rng.choice(("int64", "float64", "int8", "float32", "bool", "complex128")))
+                d["method"] = method
+                yield tag(_decorate(rng, d, 0.2), "scanblocks")
+    for _ in range(AUDIT_N["scanblocks_random"] * mult):
+        # axis=None of a 2-d array: flatten + rechunk to npartitions-sized pieces
+        s0, s1 = rng.randint(3, 9), rng.randint(3, 9)
+        d = _rand_case(rng, None, op=rng.choice(CUM), shape=[s0, s1], axis=None,
+                       chunks=[A.rand_comp(rng, s0, "two"), A.rand_comp(rng, s1, rng.choice(("one", "two")))],
+                       dtype=rng.choice(("int64", "float64", "int32")))
+        yield tag(_decorate(rng, d, 0.2), "scanblocks")
+    # ---- reduction trees with several levels; several axes of which one needs the deeper tree ---------------------------
+    for _ in range(AUDIT_N["deeptree"] * mult):
+        op = rng.choice(RED + ARG + ARG + TOPK)
+        fam = family(op)
+        u = rng.random()
+        if u < 0.45 or fam == "topk":
+            # one reduced axis with many blocks
+            nb = rng.choice((rng.randint(5, 16), rng.randint(17, 40)))
+            n, comp = _blocks_axis(rng, nb)
+            nd = rng.choice((1, 2, 2, 3))
+            ax = rng.randrange(nd)
+            shape = [rng.randint(1, 3) for _ in range(nd)]
+            chunks = [A.rand_comp(rng, s_) for s_ in shape]
+            shape[ax], chunks[ax] = n, comp
+            axis = ax - nd if rng.random() < 0.3 else ax
+            if nd == 1 and fam != "topk" and rng.random() < 0.4:
+                axis = None
+        else:
+            # two or three reduced axes, one deep and the others shallow; the deep one first or last
+            nd = rng.choice((2, 2, 3))
+            deep = rng.choice((0, nd - 1, rng.randrange(nd)))
+            shape, chunks = [], []
+            for a in range(nd):
+                if a == deep:
+                    n, comp = _blocks_axis(rng, rng.randint(5, 17), slack=(0, 0, 1))
+                else:
+                    n = rng.randint(1, 4)
+                    comp = _comp_parts(rng, n, rng.randint(1, min(n, 3)))
+                shape.append(n)
+                chunks.append(comp)
+            if fam == "arg":
+                axis = None if rng.random() < 0.7 else deep
             else:
-                d["q"] = [rng.choice((0.0, 0.1, 0.25, 0.5, 0.7, 1.0)) for _ in range(rng.randint(1, 3))]
-            d["qmethod"] = rng.choice(QMETHODS + ["linear"] * 3)
-            if axis is None:
-                # dask documents NotImplementedError for a chunked full quantile
-                d["chunks"] = [[s] for s in shape]
-        yield d
+                axes = [a for a in range(nd) if a == deep or rng.random() < 0.8]
+                if len(axes) < 2:
+                    axes = list(range(nd))
+                if rng.random() < 0.3:
+                    rng.shuffle(axes)
+                axis = None if (len(axes) == nd and rng.random() < 0.4) else axes
+        d = _rand_case(rng, None, op=op, shape=shape, chunks=chunks, axis=axis)
+        red_axes = _norm_axes(_axis(d["axis"]), len(shape))
+        pool = [2, 2, 3, None, None, 4, 5, [[int(a), rng.choice((2, 3))] for a in sorted(red_axes)],
+                [[int(red_axes[0]), 2]]]
+        d["ses"] = [rng.choice(pool)]
+        second = rng.choice(pool)
+        if second != d["ses"][0]:
+            d["ses"].append(second)
+        if fam == "topk":
+            d["k"] = rng.choice((1, -1, 2, -2, 3)) if shape[d["axis"]] >= 3 else rng.choice((1, -1))
+        yield tag(_decorate(rng, d, 0.15), "deeptree")
+    # ---- non-default parameter values on the original shape distribution ---------------------------------------------------
+    param_ops = main_ops + QUANT * 6 + ["moment"] * 5 + ["var", "std", "nanvar", "nanstd"] * 2
+    for _ in range(AUDIT_N["params"] * mult):
+        yield tag(_decorate(rng, _rand_case(rng, param_ops), 0.6), "params")
+    # ---- further dtypes ----------------------------------------------------------------------------------------------------
+    for _ in range(AUDIT_N["xdtype"] * mult):
+        dt = rng.choice(XDTYPES)
+        op = rng.choice(main_ops)
+        while (dt == "complex64" and family(op) in ("topk", "med", "quant")) or (dt == "float16" and op in PRODLIKE) \
+                or (op == "moment" and dt == "complex64"):
+            op = rng.choice(main_ops)
+        d = _rand_case(rng, None, op=op, dtype=dt)
+        if d.get("dtype_arg") and not np.can_cast(np.dtype(dt), np.dtype(d["dtype_arg"]), "same_kind"):
+            d.pop("dtype_arg")
+        if op in PRODLIKE and dt == "complex64" and int(np.prod(d["shape"] or [1])) > 24:
+            d["dtype"] = "complex128"
+        yield tag(_decorate(rng, d, 0.15), "xdtype")
+    # ---- 4-d arrays with pairwise different axis lengths -----------------------------------------------------------------------
+    for _ in range(AUDIT_N["nd4"] * mult):
+        shape = rng.choice(([2, 3, 4, 5], [1, 2, 3, 4], [2, 3, 4, 6], [1, 3, 2, 5]))[:]
+        rng.shuffle(shape)
+        yield tag(_decorate(rng, _rand_case(rng, main_ops, shape=shape), 0.15), "nd4")
+    # ---- chunks of more than 255 elements / axes longer than 255 -------------------------------------------------------------------
+    for _ in range(AUDIT_N["bigchunk"] * mult):
+        op = rng.choice(main_ops)
+        n = rng.randint(258, 700)
+        u = rng.random()
+        if u < 0.35:
+            comp = [n]
+        elif u < 0.7:
+            a = rng.randint(256, n - 1)
+            comp = [a, n - a] if rng.random() < 0.5 else [n - a, a]
+        else:
+            comp = _comp_parts(rng, n, rng.randint(2, 5))
+        if rng.random() < 0.5:
+            shape, chunks = [n], [comp]
+        else:
+            other = rng.randint(2, 3)
+            ax = rng.randrange(2)
+            shape, chunks = [other, other], [A.rand_comp(rng, other), A.rand_comp(rng, other)]
+            shape[ax], chunks[ax] = n, comp
+        dt = None
+        if op in PRODLIKE:
+            dt = rng.choice(("int8", "int32", "int64", "uint8", "bool"))    # wrapping integer products are order independent
+        d = _rand_case(rng, None, op=op, shape=shape, chunks=chunks, dtype=dt)
+        if op in PRODLIKE:
+            d.pop("dtype_arg", None)
+        yield tag(_decorate(rng, d, 0.15), "bigchunk")
+    # ---- arrays behind a boolean dask mask: unknown chunk sizes, and the same after compute_chunk_sizes() ----------------------------
+    for _ in range(AUDIT_N["masked"] * mult):
+        mode = rng.choice(("unknown", "sized"))
+        ops = (RED + ["topk"]) if mode == "unknown" else main_ops
+        d = _rand_case(rng, ops)
+        while not d["shape"]:
+            d = _rand_case(rng, ops)
+        yield tag(_decorate(rng, _mask_case(rng, d, mode), 0.15), "masked")
+
+
+# --------------------------------------------------------------------------- audit helpers
+def _unknown_chunks(case):
+    return bool(case.get("mask")) and case["mask"]["mode"] == "unknown"
+
+
+def _build(case, x, chunks):
+    """the dask array of the case: from_array, or (mask facet) a larger array indexed with a 1-d boolean dask mask"""
+    import dask.array as da
+
+    mk = case.get("mask")
+    if not mk:
+        return da.from_array(x, chunks=chunks)
+    m = mk["axis"]
+    keep = np.array(mk["keep"], dtype=bool)
+    shape = list(x.shape)
+    shape[m] = len(keep)
+    xf = np.ones(shape, dtype=x.dtype)
+    idx = [slice(None)] * x.ndim
+    idx[m] = keep
+    xf[tuple(idx)] = x
+    fchunks = list(chunks)
+    fchunks[m] = tuple(mk["chunks"])
+    idx[m] = da.from_array(keep, chunks=(fchunks[m],))
+    dx = da.from_array(xf, chunks=tuple(fchunks))[tuple(idx)]
+    if mk["mode"] == "sized":
+        dx = dx.compute_chunk_sizes()
+    return dx
+
+
+def _weights(case, x, red_axes):
+    """None | (weights handed to NumPy, weights handed to dask)"""
+    w = case.get("w")
+    if not w:
+        return None
+    import dask.array as da
+
+    r = np.random.default_rng(w["seed"])
+    if w["kind"] == "1d":
+        ax = red_axes[0]
+        wd = wn = r.integers(1, 4, x.shape[ax]).astype("float64")
+        if case["op"] == "nanquantile" and x.ndim > 1:
+            # np.nanquantile only takes weights of the shape of `a`; the broadcast 1-d weights are the same weighting
+            shp = [1] * x.ndim
+            shp[ax] = -1
+            wn = np.ascontiguousarray(np.broadcast_to(wd.reshape(shp), x.shape))
+        dchunks = (tuple(case["chunks"][ax]),)
+    else:
+        wd = wn = r.integers(1, 4, x.shape).astype("float64")
+        dchunks = A.chunks_of_desc(case["chunks"])
+    if w.get("dask"):
+        wd = da.from_array(wd, chunks=dchunks)
+    return wn, wd
+
+
+def _tree_depths(se, red_axes, chunks):
+    """{reduced axis: number of levels its blocks need} with dask's own rule (_tree_reduce)"""
+    import math
+
+    if isinstance(se, dict) and "config" in se:
+        se = se["config"]
+    if isinstance(se, dict):
+        lim = {a: se.get(a, 2) for a in red_axes}
+    else:
+        n = max(int((se or 4) ** (1 / (len(red_axes) or 1))), 2)
+        lim = {a: n for a in red_axes}
+    return {a: (max(1, int(math.ceil(math.log(len(chunks[a]), lim[a])))) if len(chunks[a]) > 1 else 1) for a in red_axes}
+
+
+def _scan_blocks(case, chunks):
+    """number of blocks along the scanned axis as the scan sees it (axis=None: flatten + rechunk(npartitions))"""
+    axis = case.get("axis")
+    if axis is None and (len(chunks) > 1 or case["method"] == "blelloch"):
+        npart, size = 1, 1
+        for c in chunks:
+            npart *= len(c)
+            size *= sum(c)
+        return -(-size // npart)
+    return len(chunks[0 if axis is None else axis])
+
+
+def _count_classes(case, ctx, fam, x, chunks, red_axes, ses):
+    """counters of the input classes of the parameter audit (floors make a generator that loses a class INCONCLUSIVE)"""
+    op = case["op"]
+    if case.get("fam"):
+        ctx.count("audit_" + case["fam"])
+    if fam == "cum":
+        nb = _scan_blocks(case, chunks)
+        if 7 <= nb <= 33:
+            ctx.count("scan_%s_blocks_7_33" % case["method"])
+            if case["method"] == "blelloch":
+                ctx.distinct("blelloch_block_counts_7_33", nb)
+    if fam in ("red", "arg", "topk"):
+        for se in ses:
+            dep = _tree_depths(se, red_axes, chunks)
+            if max(dep.values(), default=1) >= 3:
+                ctx.count("tree_depth_ge3_runs")
+                if se is None:
+                    ctx.count("tree_depth_ge3_default_split_every_runs")
+            if len(dep) >= 2:
+                so = sorted(dep)
+                pairs = [(dep[so[i]], dep[so[j]]) for i in range(len(so)) for j in range(i + 1, len(so))]
+                if any(a > b for a, b in pairs):
+                    ctx.count("multi_axis_earlier_axis_deeper_runs")
+                if any(a < b for a, b in pairs):
+                    ctx.count("multi_axis_later_axis_deeper_runs")
+            if isinstance(se, dict) and "config" in se:
+                ctx.count("split_every_from_config_runs")
+            elif isinstance(se, int) and se >= 4:
+                ctx.count("split_every_ge4_runs")
+    if case.get("form") == "method":
+        ctx.count("method_form_cases")
+    if isinstance(case.get("ddof"), float):
+        ctx.count("float_ddof_cases")
+    if op == "moment" and case.get("dtype_arg"):
+        ctx.count("moment_dtype_cases")
+    if fam == "quant":
+        ctx.distinct("quantile_methods", case["qmethod"])
+        if case.get("w"):
+            ctx.count("quantile_weighted_cases")
+            ctx.distinct("quantile_weight_kinds", (op, case["w"]["kind"], bool(case["w"].get("dask"))))
+        q = case["q"]
+        if isinstance(q, list) and q and isinstance(q[0], list):
+            ctx.count("q_2d_cases")
+        if isinstance(q, int):
+            ctx.count("q_python_int_cases")
+    if case["dtype"] in XDTYPES:
+        ctx.count("xdtype_cases")
+        ctx.distinct("xdtype_op", (case["dtype"], op))
+    if x.ndim == 4:
+        ctx.count("nd4_cases")
+    big = 1
+    for c in chunks:
+        big *= max(c) if c else 1
+    if big > 255:
+        ctx.count("block_gt_255_elements_cases")
+    if case.get("mask"):
+        ctx.count("unknown_chunks_cases" if _unknown_chunks(case) else "sized_after_mask_cases")
+
+
+def _short(v):
+    try:
+        if hasattr(v, "compute"):
+            v = v.compute(scheduler="sync")
+        return str(np.asarray(v).tolist())[:120]
+    except Exception as ex:  # noqa: BLE001
+        return "<%s>" % type(ex).__name__
 
 
 # --------------------------------------------------------------------------- data
@@ -373,6 +810,8 @@ def _data0(case):
     r = np.random.default_rng(seed + 77)
     n = int(np.prod(shape)) if shape else 1
     isf = dtype.startswith("float")
+    if dtype == "complex64":
+        return _data0(dict(case, dtype="complex128")).astype("complex64")
     if flav == "small":
         return A.rand_data(seed, shape, dtype, special=True)
     if flav == "fixed43":
@@ -527,10 +966,37 @@ def _zero_chunk_matters(case, symptom):
     return _variant_clears(case, symptom, chunks=[[c for c in cs if c] for cs in case["chunks"]])
 
 
+def _deco_feats(case, symptom):
+    """features of the audit parameters, kept only if the symptom disappears without that parameter (re-runs the REAL API)"""
+    f = []
+    if case.get("mask") and _variant_clears(case, symptom, mask=None):
+        f.append("unknown-chunks" if _unknown_chunks(case) else "after-compute_chunk_sizes")
+    if case.get("out") and _variant_clears(case, symptom, out=None):
+        f.append("out=given")
+    if case.get("form") and _variant_clears(case, symptom, form=None):
+        f.append("method-form")
+    if case.get("w") and _variant_clears(case, symptom, w=None):
+        f.append("weights=" + case["w"]["kind"])
+        red = _norm_axes(_axis(case.get("axis")), len(case["shape"]))
+        if any(len(c) > 1 for a, c in enumerate(case["chunks"]) if a not in red):
+            f.append("nonreduced-axis-split")
+    if isinstance(case.get("ddof"), float) and _variant_clears(case, symptom, ddof=int(case["ddof"] + 0.5)):
+        f.append("ddof-noninteger")
+    if any(isinstance(v, dict) for v in case.get("ses", [])) and \
+            _variant_clears(case, symptom, ses=[(v["config"] if isinstance(v, dict) else v) for v in case["ses"]]):
+        f.append("split_every=config")
+    return f
+
+
 def _feat(case, x, symptom, classify=True):
     base = _feat0(case, x, symptom, classify)
+    extra = []
     if _has_zero_chunk(case) and (not classify or _zero_chunk_matters(case, symptom)):
-        return "zero-size-chunk" if base == "any" else "zero-size-chunk&" + base
+        extra.append("zero-size-chunk")
+    if classify:
+        extra += _deco_feats(case, symptom)
+    if extra:
+        return "&".join(extra if base == "any" else extra + [base])
     return base
 
 
@@ -602,6 +1068,8 @@ def _exc_prefix(case, x):
             f.append("axis-split")
     if family(op) == "cum":
         f.append(case["method"])
+    if family(op) == "quant" and isinstance(case["q"], list) and case["q"] and isinstance(case["q"][0], list):
+        f.append("q.ndim>a.ndim" if x.ndim < 2 else "q-2d")
     if case.get("dtype_arg"):
         f.append("dtype=given")
     return "%s:%s" % (op, "&".join(f) if f else "any")
@@ -621,9 +1089,14 @@ def _raise_violation(ctx, case, x, ex, se, classify=True):
     tb = "".join(traceback.format_exception(type(ex), ex, ex.__traceback__))[-3000:]
     prefix = _exc_prefix(case, x)
     sym = "raises@%s" % where
+    extra = []
     if _has_zero_chunk(case) and (not classify or _zero_chunk_matters(case, sym)):
+        extra.append("zero-size-chunk")
+    if classify:
+        extra += _deco_feats(case, sym)
+    if extra:
         op_, f_ = prefix.split(":", 1)
-        prefix = "%s:%s" % (op_, "zero-size-chunk" if f_ == "any" else "zero-size-chunk&" + f_)
+        prefix = "%s:%s" % (op_, "&".join(extra if f_ == "any" else extra + [f_]))
     ctx.violation("%s:%s" % (prefix, sym), "%s: %s" % (type(ex).__name__, str(ex)[:400]),
                   traceback=tb, split_every=repr(se))
 
@@ -638,8 +1111,8 @@ def _scale(x):
     return float(np.abs(x.astype("float64")).max()) if x.size else 1.0
 
 
-def _moment_ref(x, order, axis, keepdims, ddof):
-    dt = np.var(np.ones((1,), dtype=x.dtype)).dtype
+def _moment_ref(x, order, axis, keepdims, ddof, dtype=None):
+    dt = np.dtype(dtype) if dtype else np.var(np.ones((1,), dtype=x.dtype)).dtype
     xf = x.astype(dt)
     nd = x.ndim
     red = _norm_axes(axis, nd)
@@ -697,7 +1170,8 @@ def run_case(case, ctx, _classify=True):
     ctx.op(op)
     ctx.sig = (op, case["shape"], case["dtype"], case["chunks"], case.get("axis"), kd, case.get("ses"),
                case.get("ddof"), case.get("dtype_arg"), case.get("order"), case.get("method"), case.get("k"),
-               case.get("q"), case.get("qmethod"), case["flavour"], case["seed"])
+               case.get("q"), case.get("qmethod"), case["flavour"], case["seed"],
+               case.get("out"), case.get("form"), case.get("w"), case.get("mask"))
     ctx.nontrivial = A.has_split(chunks)
     ctx.distinct("op_axis_kind", (op, _axis_kind(axis), kd))
     if _has_zero_chunk(case):
@@ -716,7 +1190,9 @@ def run_case(case, ctx, _classify=True):
         ctx.count("nanlane_cases")
         if hit:
             ctx.count("nanlane_allnan_segment_next_to_mixed_lane")
-    dx = da.from_array(x, chunks=chunks)
+    dx = _build(case, x, chunks)
+    if _classify:
+        _count_classes(case, ctx, fam, x, chunks, red_axes, ses)
 
     # ---- build the NumPy reference and the dask thunk -----------------------------------------
     def mk_kw(c):
@@ -731,10 +1207,11 @@ def run_case(case, ctx, _classify=True):
         return k
 
     kw = mk_kw(case)
+    wts = _weights(case, x, red_axes)       # None | (weights for NumPy, weights for dask)
 
     def ref():
         if op == "moment":
-            return _moment_ref(x, case["order"], axis, kd, case.get("ddof", 0))
+            return _moment_ref(x, case["order"], axis, kd, case.get("ddof", 0), case.get("dtype_arg"))
         if fam == "cum":
             k2 = {"axis": axis}
             if "dtype" in kw:
@@ -743,28 +1220,44 @@ def run_case(case, ctx, _classify=True):
         if fam == "topk":
             return _topk_ref(x, case["k"], axis)
         if fam == "quant":
+            if wts is not None:
+                return getattr(np, op)(x, case["q"], method=case["qmethod"], weights=wts[0], **kw)
             return getattr(np, op)(x, case["q"], method=case["qmethod"], **kw)
         return getattr(np, op)(x, **kw)
 
-    def dask_call(se, c=case):
+    def dask_call(se, c=case, out=None):
         # c is the case itself, or (sibling facet) the case with one parameter changed
+        if isinstance(se, dict) and "config" in se:
+            # the global default of split_every (documented in reduction()), read when the graph is built
+            import dask
+
+            with dask.config.set(split_every=se["config"]):
+                return dask_call(None, c, out)
         kw = mk_kw(c)
+        if out is not None:
+            kw["out"] = out
         axis = _axis(c.get("axis"))
+        # the function dask.array.<op>(x, ...) or, for a part of the cases, the Array method x.<op>(...)
+        f = (lambda *a, **k: getattr(dx, op)(*a, **k)) if c.get("form") == "method" else \
+            (lambda *a, **k: getattr(da, op)(dx, *a, **k))
         if op == "moment":
             k2 = dict(kw)
-            return da.moment(dx, c["order"], split_every=se, **k2)
+            return f(c["order"], split_every=se, **k2)
         if fam == "cum":
             k2 = {"axis": axis, "method": c["method"]}
-            if "dtype" in kw:
-                k2["dtype"] = kw["dtype"]
-            return getattr(da, op)(dx, **k2)
+            for name in ("dtype", "out"):
+                if name in kw:
+                    k2[name] = kw[name]
+            return f(**k2)
         if fam == "topk":
-            return getattr(da, op)(dx, c["k"], axis=axis, split_every=se)
+            return f(c["k"], axis=axis, split_every=se)
         if fam == "med":
-            return getattr(da, op)(dx, **kw)
+            return f(**kw)
         if fam == "quant":
-            return getattr(da, op)(dx, c["q"], method=c["qmethod"], **kw)
-        return getattr(da, op)(dx, split_every=se, **kw)
+            if wts is not None:
+                kw["weights"] = wts[1]
+            return f(c["q"], method=c["qmethod"], **kw)
+        return f(split_every=se, **kw)
 
     with warnings.catch_warnings():
         warnings.simplefilter("ignore")
@@ -781,9 +1274,15 @@ def run_case(case, ctx, _classify=True):
                     ctx.reject("numpy: %s: %s" % (type(ex).__name__, ex))
                     return
             results = []
+            outs = []
             for se in ses:
+                out = None
                 try:
-                    r = dask_call(se)
+                    if case.get("out"):
+                        # out=: "another dask array whose contents will be replaced" (shape and dtype of the result)
+                        e_ = np.asarray(e)
+                        out = da.zeros(e_.shape, dtype=e_.dtype, chunks=tuple(max(1, (s_ + 1) // 2) for s_ in e_.shape))
+                    r = dask_call(se, out=((out,) if case.get("out") == "tuple" else out))
                     if not isinstance(r, da.Array):
                         ctx.violation("%s:any:result-not-a-dask-array" % op, "got %r" % (type(r),))
                         return
@@ -792,25 +1291,34 @@ def run_case(case, ctx, _classify=True):
                     ctx.unsupported(str(ex))
                     return
                 except Exception as ex:  # noqa: BLE001
+                    if _unknown_chunks(case) and isinstance(ex, ValueError) and "unknown" in str(ex).lower():
+                        # dask documents that some operations need known chunk sizes and says so (nanmin / nanmax)
+                        ctx.unsupported("unknown chunk sizes: " + str(ex)[:120])
+                        return
                     _raise_violation(ctx, case, x, ex, se, _classify)
                     return
                 results.append((se, r, rv))
+                outs.append(out)
                 # depth of the reduction tree: was an intermediate combine level exercised?
                 if fam in ("red", "arg", "topk"):
-                    sed = se if isinstance(se, dict) else None
-                    for a in red_axes:
-                        lim = (sed.get(a, 2) if sed is not None else
-                               max(int((se or 4) ** (1 / (len(red_axes) or 1))), 2))
-                        if len(chunks[a]) > lim:
-                            ctx.count("combine_level_runs")
-                            break
+                    if max(_tree_depths(se, red_axes, chunks).values(), default=1) >= 2:
+                        ctx.count("combine_level_runs")
 
     e = np.asarray(e)
     bad = False
     with warnings.catch_warnings():
         warnings.simplefilter("ignore")
         with np.errstate(all="ignore"):
-            for se, r, rv in results:
+            for (se, r, rv), out in zip(results, outs):
+                if out is not None:
+                    # the returned array IS out, whose contents are the result (checked through rv below when r is out)
+                    ctx.count("out_checked")
+                    if r is not out:
+                        bad = True
+                        f_ = ["order<2"] if (op == "moment" and case.get("order", 2) < 2) else []
+                        ctx.violation("%s:%s:result-is-not-out" % ("std" if op in STDLIKE else op, "&".join(f_ + ["out=given"])),
+                                      "the call returned an array that is not `out`; out now computes to %s, NumPy's result is %s"
+                                      % (_short(out), _short(e)), split_every=repr(se))
                 m = _check_one(case, ctx, fam, op, x, e, rv, axis, kd, nred, scale,
                                extreme if fam == "arg" else None)
                 if m:
@@ -885,6 +1393,9 @@ def _sibling(case, fam):
         opts.append("split_every")
     if fam == "cum" or op in ("sum", "prod", "mean", "var", "std", "nansum", "nanprod", "nanmean", "nanvar", "nanstd"):
         opts.append("dtype")
+    if case.get("w"):
+        # weights fix the method (inverted_cdf) and, in the 1-d form, the axis
+        opts = [o_ for o_ in opts if o_ not in ("axis", "qmethod")]
     srng.shuffle(opts)
     for param in opts:
         c2 = dict(case)
@@ -938,7 +1449,11 @@ def _sibling(case, fam):
             return "k", c2, _SAME
         if param == "q":
             q = case["q"]
-            if isinstance(q, list):
+            if isinstance(q, list) and q and isinstance(q[0], list):
+                q2 = [list(row) for row in q]
+                i, j = srng.randrange(len(q2)), srng.randrange(len(q2[0]))
+                q2[i][j] = srng.choice([v for v in (0.0, 0.1, 0.25, 0.5, 0.7, 1.0) if v != q2[i][j]])
+            elif isinstance(q, list):
                 q2 = list(q)
                 i = srng.randrange(len(q2))
                 q2[i] = srng.choice([v for v in (0.0, 0.1, 0.25, 0.5, 0.7, 1.0) if v != q2[i]])
@@ -947,7 +1462,8 @@ def _sibling(case, fam):
             c2["q"] = q2
             return "q", c2, _SAME
         if param == "qmethod":
-            c2["qmethod"] = srng.choice([m for m in QMETHODS if m != case["qmethod"]])
+            c2["qmethod"] = srng.choice([m for m in (ALL_QMETHODS if case["qmethod"] not in QMETHODS else QMETHODS)
+                                         if m != case["qmethod"]])
             return "method", c2, _SAME
         if param == "split_every":
             first = case["ses"][0]
